@@ -176,6 +176,22 @@ theorem form_invariant (pts : List (ℚ × ℚ)) (h : 2 ≤ pts.length) (z : ℚ
   have : 2 ≤ min (pts.map Prod.fst).length (pts.map Prod.snd).length := by simp [h]
   rw [if_pos this]
 
+/-- The one-list form `CurveFitting([y0, y1, …])` is the two-list form with the abscissae `0, 1, 2, …`. -/
+theorem single_list_form (ys : List ℚ) :
+    GenQ.CurveFitting.set [.list ys]
+      = GenQ.CurveFitting.set [.list ((List.range ys.length).map (fun (i : ℕ) => ((i : ℤ) : ℚ))), .list ys] := by
+  simp only [GenQ.CurveFitting.set, set1, set2, FitArg.isNum, Bool.or_self, Bool.false_eq_true, if_false,
+    List.length_map, List.length_range, Nat.min_self, List.take_length, ofInt]
+  rw [List.take_of_length_le (by simp)]
+  simp only [List.length_map, List.length_range, or_self]
+
+/-- Lists of unequal length: the longer one is cut to the length of the shorter one. -/
+theorem unequal_lengths_truncated (xs ys : List ℚ) :
+    GenQ.CurveFitting.set [.list xs, .list ys]
+      = GenQ.CurveFitting.set [.list (xs.take (min xs.length ys.length)), .list (ys.take (min xs.length ys.length))] := by
+  rw [set_two_lists, set_two_lists, take_zip']
+  simp
+
 /-- Arity rules of the constructor: a single number, two or three numbers, or a number next to a list
     are refused with ValueError, other objects with TypeError, lists shorter than two with ValueError. -/
 theorem arity_rules (v w u : ℚ) (l : List ℚ) :
